@@ -560,8 +560,35 @@ fn run_child(exe: &str, dir: &str, tag: &str, wid: u64, plan: &Value, epilogue: 
             }
             Ok(None) => {
                 if start.elapsed().as_secs() > 60 {
-                    let _ = child.kill();
-                    return Err("child timed out after 60 s (hang under faults)".into());
+                    // the wall clock only raises the question; "hang" needs a signature measured in CPU time:
+                    // nobody computes for 2 s (all blocked), or one thread burns >= 8.5 s in 10 s while the rest of
+                    // the process is idle (a loop that makes no progress). Otherwise the child is merely slow.
+                    let cpu = |pid: u32| crate::engines::live::thread_cpu(pid);
+                    let a = cpu(child.id());
+                    std::thread::sleep(std::time::Duration::from_secs(2));
+                    let b = cpu(child.id());
+                    let progressed = b.iter().filter(|(t, (_, c))| a.get(*t).map(|(_, c0)| c0 != c).unwrap_or(true)).count();
+                    if progressed == 0 && matches!(child.try_wait(), Ok(None)) {
+                        let _ = child.kill();
+                        let _ = child.wait();
+                        return Err(format!("child timed out after {} s and no thread consumed CPU for 2 s (hang under faults: everybody is blocked)", start.elapsed().as_secs()));
+                    }
+                    let c0 = cpu(child.id());
+                    std::thread::sleep(std::time::Duration::from_secs(10));
+                    let c1 = cpu(child.id());
+                    let deltas: Vec<u64> = c1.iter().map(|(t, (_, c))| c.saturating_sub(c0.get(t).map(|x| x.1).unwrap_or(*c))).collect();
+                    let busy = deltas.iter().filter(|d| **d >= 850).count();
+                    let rest: u64 = deltas.iter().filter(|d| **d < 850).sum();
+                    if busy == 1 && rest <= 50 && matches!(child.try_wait(), Ok(None)) {
+                        let _ = child.kill();
+                        let _ = child.wait();
+                        return Err(format!("child timed out after {} s with one thread spinning (>= 8.5 s of CPU time in 10 s, everything else idle): hang under faults", start.elapsed().as_secs()));
+                    }
+                    if start.elapsed().as_secs() > 400 {
+                        let _ = child.kill();
+                        let _ = child.wait();
+                        return Err("slow: child still computing after 400 s (no stall or spin signature)".into());
+                    }
                 }
                 std::thread::sleep(std::time::Duration::from_millis(5));
             }
@@ -757,7 +784,9 @@ pub fn run(args: &Args) -> Report {
                 let res = match run_child(&exe, &dir, &tag, wid, &plan, false) {
                     Ok(v) => v,
                     Err(e) => {
-                        if e.contains("timed out") {
+                        if e.starts_with("slow:") {
+                            local.inconclusive.push(format!("workload {wid} under plan {plan}: {e}"));
+                        } else if e.contains("timed out") {
                             local.violation("fault:hang", format!("workload {wid} under plan {plan}: {e}"), replay(json!(null)));
                         } else {
                             local.violation("fault:child-crashed", format!("workload {wid} under plan {plan}: {e}"), replay(json!(null)));
